@@ -19,6 +19,7 @@ def run(facts, tier):
         ("builder/reset", T.builder_reset, 2, "reset() restores theta through the builder's helper; re-reads follow member resets"),
         ("tautologies", lambda fa: generic_lints.tautologies(fa, ('theta/',)), 2, "no comparison / assignment / min-max with two identical operands, no if-else with identical arms"),
         ("duplicate operands", lambda fa: generic_lints.duplicate_conjuncts(fa, ('theta/',)), 2, "no logical chain tests the same operand twice (copy-paste of the wrong peer)"),
+        ("forwarding peers", lambda fa: generic_lints.forwarding_peers(fa, ('theta/',)), 8, "one-statement typed overloads forward to an overload of their own name, never to the head of a sibling family (wrong peer)"),
         ("structural triggers", lambda fa: triggers.obligations(fa, ['theta_update_sketch_base']), 3, "the comparisons that decide when to resize / rebuild / compact / purge / promote keep their reviewed boundary (operator and constants)"),
     ):
         o = f(facts)
